@@ -862,4 +862,182 @@ Section DiffFacts.
     - intros [p [He Hin]]. apply in_map_iff in Hin. destruct Hin as [[q d] [Hq Hin]]. cbn in Hq. subst q.
       exists (p, d). split; [symmetry; exact He|exact Hin].
   Qed.
+
+  (** ** every path is mentioned at most once *)
+  Lemma nodup_app {A} (a c : list A) :
+    NoDup a -> NoDup c -> (forall x, In x a -> ~ In x c) -> NoDup (a ++ c).
+  Proof.
+    induction a as [|x a IH]; cbn; intros Ha Hc Hd; [exact Hc|].
+    inversion Ha as [|y ys NI Ha']. subst. constructor.
+    - intros H. apply in_app_or in H. destruct H as [H|H]; [contradiction|]. apply (Hd x); [left; reflexivity|exact H].
+    - apply IH; [exact Ha'|exact Hc|]. intros z Hz. apply Hd. right; exact Hz.
+  Qed.
+
+  Lemma nodup_flat_map {A B} (f : A -> list B) l :
+    NoDup l -> (forall a, In a l -> NoDup (f a)) ->
+    (forall a a', In a l -> In a' l -> a <> a' -> forall x, In x (f a) -> ~ In x (f a')) ->
+    NoDup (flat_map f l).
+  Proof.
+    induction l as [|a l IH]; cbn [flat_map]; intros Hl Hf Hd; [constructor|].
+    inversion Hl as [|y ys NI Hl']. subst. apply nodup_app.
+    - apply Hf. left; reflexivity.
+    - apply IH; [exact Hl'| |].
+      + intros c Hc. apply Hf. right; exact Hc.
+      + intros c c' Hc Hc'. apply Hd; right; assumption.
+    - intros x Hx H. apply in_flat_map in H. destruct H as [c [Hc Hxc]].
+      refine (Hd a c (or_introl eq_refl) (or_intror Hc) _ x Hx Hxc).
+      intros E. subst c. contradiction.
+  Qed.
+
+  Lemma nodup_filtermap_keys (g : P * D -> bool) (s : state) :
+    NoDup (keys s) -> NoDup (flat_map (fun e => if g e then [fst e] else []) s).
+  Proof.
+    induction s as [|[p d] s IH]; cbn; intros ND; [constructor|].
+    inversion ND as [|y ys NI ND']. subst. destruct (g (p, d)); cbn; [|apply IH, ND'].
+    constructor; [|apply IH, ND']. intros H. apply NI. apply in_flat_map in H.
+    destruct H as [[q x] [Hin Hq]]. destruct (g (q, x)); [|destruct Hq]. destruct Hq as [Hq|[]]. cbn in Hq. subst q.
+    eapply in_keys, Hin.
+  Qed.
+
+  Lemma lo_paths_nodup (a c : state) x : NoDup (keys a) -> NoDup (lo_paths c a x).
+  Proof.
+    intros ND. unfold lo_paths.
+    rewrite (flat_map_ext_in' _ (fun e => if (match lookup (fst e) c with None => deqb (snd e) x | Some _ => false end)
+                                          then [fst e] else []) a).
+    - apply nodup_filtermap_keys, ND.
+    - intros [q y] _. cbn [fst snd]. destruct (lookup q c); [reflexivity|]. destruct (deqb y x); reflexivity.
+  Qed.
+
+  Lemma mentions_app (a c : list dentry) : mentions (a ++ c) = mentions a ++ mentions c.
+  Proof. unfold mentions. apply flat_map_app. Qed.
+
+  Lemma mentions_flat_map {A} (F : A -> list dentry) s :
+    mentions (flat_map F s) = flat_map (fun a => mentions (F a)) s.
+  Proof.
+    induction s as [|a s IH]; [reflexivity|]. cbn [flat_map]. rewrite mentions_app, IH. reflexivity.
+  Qed.
+
+  Definition gm (r : state) (e : P * D) : bool :=
+    match lookup (fst e) r with Some rd => negb (deqb (snd e) rd) | None => false end.
+  Definition ga (l r : state) (e : P * D) : bool :=
+    match lookup (fst e) l with
+    | Some _ => false
+    | None => match lo_paths r l (snd e) with [] => true | _ => false end
+    end.
+
+  Lemma mentions_mods l r : mentions (mods r l) = flat_map (fun e => if gm r e then [fst e] else []) l.
+  Proof.
+    unfold mods. rewrite mentions_flat_map. apply flat_map_ext_in'. intros [p d] _. unfold gm. cbn [fst snd].
+    destruct (lookup p r) as [rd|]; [|reflexivity]. destruct (deqb d rd); reflexivity.
+  Qed.
+
+  Lemma mentions_adds_spec l r : mentions (adds_spec l r) = flat_map (fun e => if ga l r e then [fst e] else []) r.
+  Proof.
+    unfold adds_spec. rewrite mentions_flat_map. apply flat_map_ext_in'. intros [p d] _. unfold ga. cbn [fst snd].
+    destruct (lookup p l); [reflexivity|]. destruct (lo_paths r l d); reflexivity.
+  Qed.
+
+  Lemma mentions_deleted (v : list P) : mentions (map Deleted v) = v.
+  Proof. induction v as [|p v IH]; [reflexivity|]. cbn. unfold mentions in IH. rewrite IH. reflexivity. Qed.
+
+  Lemma mentions_flush ds (dels : list (D * list P)) (rens : list (D * (list P * list P))) :
+    mentions (flush ple ds dels rens) =
+    mentions ds ++ flat_map snd dels ++
+    flat_map (fun kv => sort_paths ple (fst (snd kv)) ++ sort_paths ple (snd (snd kv))) rens.
+  Proof.
+    unfold flush. rewrite !mentions_app. f_equal. f_equal.
+    - rewrite mentions_flat_map. apply flat_map_ext_in'. intros [k v] _. apply mentions_deleted.
+    - induction rens as [|[k [o rn]] rens IH]; [reflexivity|]. cbn [map flat_map fst snd].
+      change (mentions (?a :: ?t)) with (mention a ++ mentions t). rewrite IH. reflexivity.
+  Qed.
+
+  Lemma nodup_pairs_of_keys {V} (m : list (D * V)) : NoDup (map fst m) -> NoDup m.
+  Proof.
+    induction m as [|[k v] m IH]; cbn; intros ND; [constructor|].
+    inversion ND as [|y ys NI ND']. subst. constructor; [|apply IH, ND'].
+    intros H. apply NI. apply in_map_iff. exists (k, v). split; [reflexivity|exact H].
+  Qed.
+
+  (** no path is mentioned twice by the report (in particular no entry is repeated) *)
+  Theorem diff_mentions_nodup l r : NoDup (keys l) -> NoDup (keys r) ->
+    NoDup (mentions (diff peqb deqb ple (Some l) r)).
+  Proof.
+    intros NDl NDr. destruct (diff_struct l r) as (dels2 & rens & Heq & Hnd & Hndr & Hdel & Hren).
+    rewrite Heq, mentions_flush, mentions_app, mentions_mods, mentions_adds_spec.
+    (* membership facts of the four segments *)
+    assert (FA1 : forall q, In q (flat_map (fun e => if gm r e then [fst e] else []) l) ->
+                            lookup q l <> None /\ lookup q r <> None).
+    { intros q H. apply in_flat_map in H. destruct H as [[p d] [Hin Hq]]. unfold gm in Hq. cbn [fst snd] in Hq.
+      destruct (lookup p r) as [rd|] eqn:ER; [|destruct Hq]. destruct (negb (deqb d rd)); [|destruct Hq].
+      destruct Hq as [Hq|[]]. subst q. split; [|congruence].
+      rewrite (in_lookup l p d NDl Hin). discriminate. }
+    assert (FA2 : forall q, In q (flat_map (fun e => if ga l r e then [fst e] else []) r) ->
+                            exists d, right_only l r q d /\ lo_paths r l d = []).
+    { intros q H. apply in_flat_map in H. destruct H as [[p d] [Hin Hq]]. unfold ga in Hq. cbn [fst snd] in Hq.
+      destruct (lookup p l) eqn:EL; [destruct Hq|]. destruct (lo_paths r l d) eqn:Elo; [|destruct Hq].
+      destruct Hq as [Hq|[]]. subst q. exists d. split; [split; [apply in_lookup; assumption|exact EL]|exact Elo]. }
+    assert (FB : forall k v, In (k, v) dels2 -> v = lo_paths r l k /\ lo_paths l r k = []).
+    { intros k v Hin. apply (in_aget _ _ _ _ Hnd) in Hin. rewrite Hdel in Hin.
+      destruct (lo_paths l r k); [|discriminate]. destruct (lo_paths r l k); [discriminate|].
+      inversion Hin. split; reflexivity. }
+    assert (FC : forall k o rn, In (k, (o, rn)) rens ->
+                                o = lo_paths r l k /\ rn = lo_paths l r k /\ o <> [] /\ rn <> []).
+    { intros k o rn Hin. apply (in_aget _ _ _ _ Hndr) in Hin. rewrite Hren in Hin.
+      destruct (lo_paths l r k); [discriminate|]. destruct (lo_paths r l k); [discriminate|].
+      inversion Hin. repeat split; discriminate. }
+    assert (FBq : forall q, In q (flat_map snd dels2) -> exists k, left_only l r q k /\ lo_paths l r k = []).
+    { intros q H. apply in_flat_map in H. destruct H as [[k v] [Hin Hq]]. cbn [snd] in Hq.
+      destruct (FB k v Hin) as [Hv Hro]. subst v. exists k. split; [apply (in_lo_paths l r q k NDl), Hq|exact Hro]. }
+    assert (FCq : forall q, In q (flat_map (fun kv : D * (list P * list P) =>
+                                     sort_paths ple (fst (snd kv)) ++ sort_paths ple (snd (snd kv))) rens) ->
+                            exists k, lo_paths r l k <> [] /\ lo_paths l r k <> [] /\
+                                      (left_only l r q k \/ right_only l r q k)).
+    { intros q H. apply in_flat_map in H. destruct H as [[k [o rn]] [Hin Hq]]. cbn [fst snd] in Hq.
+      destruct (FC k o rn Hin) as (Ho & Hrn & Hone & Hrne). subst o rn. exists k.
+      split; [exact Hone|split; [exact Hrne|]]. apply in_app_or in Hq. destruct Hq as [Hq|Hq]; rewrite sort_paths_in in Hq.
+      - left. apply (in_lo_paths l r q k NDl), Hq.
+      - right. apply right_left_only, (in_lo_paths r l q k NDr), Hq. }
+    apply nodup_app; [apply nodup_app|apply nodup_app|].
+    - apply nodup_filtermap_keys, NDl.
+    - apply nodup_filtermap_keys, NDr.
+    - intros q H1 H2. apply FA1 in H1. apply FA2 in H2. destruct H1 as [H1 _]. destruct H2 as (d & [_ H2] & _). contradiction.
+    - (* Deleted part *)
+      apply nodup_flat_map.
+      + apply nodup_pairs_of_keys, Hnd.
+      + intros [k v] Hin. cbn [snd]. destruct (FB k v Hin) as [Hv _]. subst v. apply lo_paths_nodup, NDl.
+      + intros [k v] [k' v'] Hin Hin' Hne q Hq Hq'. cbn [snd] in *.
+        destruct (FB k v Hin) as [Hv _]. destruct (FB k' v' Hin') as [Hv' _]. subst v v'.
+        apply (in_lo_paths l r q k NDl) in Hq. apply (in_lo_paths l r q k' NDl) in Hq'.
+        destruct Hq as [Hq _]. destruct Hq' as [Hq' _]. assert (k = k') by congruence. subst k'. apply Hne. reflexivity.
+    - (* Renamed part *)
+      apply nodup_flat_map.
+      + apply nodup_pairs_of_keys, Hndr.
+      + intros [k [o rn]] Hin. cbn [fst snd]. destruct (FC k o rn Hin) as (Ho & Hrn & _). subst o rn.
+        apply nodup_app; [apply sort_paths_nodup, lo_paths_nodup, NDl|apply sort_paths_nodup, lo_paths_nodup, NDr|].
+        intros q Hq Hq'. rewrite sort_paths_in in Hq. rewrite sort_paths_in in Hq'.
+        apply (in_lo_paths l r q k NDl) in Hq. apply (in_lo_paths r l q k NDr) in Hq'.
+        destruct Hq as [Hq _]. destruct Hq' as [_ Hq']. congruence.
+      + intros [k [o rn]] [k' [o' rn']] Hin Hin' Hne q Hq Hq'. cbn [fst snd] in *.
+        destruct (FC k o rn Hin) as (Ho & Hrn & _). destruct (FC k' o' rn' Hin') as (Ho' & Hrn' & _). subst o rn o' rn'.
+        assert (Hk : k <> k') by (intros E; subst k'; apply Hne; reflexivity).
+        apply in_app_or in Hq. apply in_app_or in Hq'.
+        destruct Hq as [Hq|Hq]; destruct Hq' as [Hq'|Hq']; rewrite sort_paths_in in Hq; rewrite sort_paths_in in Hq'.
+        * apply (in_lo_paths l r q k NDl) in Hq. apply (in_lo_paths l r q k' NDl) in Hq'.
+          destruct Hq as [Hq _]. destruct Hq' as [Hq' _]. congruence.
+        * apply (in_lo_paths l r q k NDl) in Hq. apply (in_lo_paths r l q k' NDr) in Hq'.
+          destruct Hq as [Hq _]. destruct Hq' as [_ Hq']. congruence.
+        * apply (in_lo_paths r l q k NDr) in Hq. apply (in_lo_paths l r q k' NDl) in Hq'.
+          destruct Hq as [_ Hq]. destruct Hq' as [Hq' _]. congruence.
+        * apply (in_lo_paths r l q k NDr) in Hq. apply (in_lo_paths r l q k' NDr) in Hq'.
+          destruct Hq as [Hq _]. destruct Hq' as [Hq' _]. congruence.
+    - intros q H1 H2. apply FBq in H1. apply FCq in H2.
+      destruct H1 as (k & [Hl Hr] & Hro). destruct H2 as (k' & Hlo' & Hro' & [[Hl' _]|[_ Hl']]); [|congruence].
+      assert (k = k') by congruence. subst k'. contradiction.
+    - intros q H1 H2. apply in_app_or in H1. apply in_app_or in H2. destruct H1 as [H1|H1]; destruct H2 as [H2|H2].
+      + apply FA1 in H1. apply FBq in H2. destruct H1 as [_ H1]. destruct H2 as (k & [_ H2] & _). contradiction.
+      + apply FA1 in H1. apply FCq in H2. destruct H1 as [H1 H1']. destruct H2 as (k & _ & _ & [[_ H2]|[_ H2]]); contradiction.
+      + apply FA2 in H1. apply FBq in H2. destruct H1 as (d & [_ H1] & _). destruct H2 as (k & [H2 _] & _). congruence.
+      + apply FA2 in H1. apply FCq in H2. destruct H1 as (d & [H1 H1'] & Hlo). destruct H2 as (k & Hlo' & _ & [[H2 _]|[H2 _]]); [congruence|].
+        assert (d = k) by congruence. subst k. contradiction.
+  Qed.
 End DiffFacts.
